@@ -1,7 +1,7 @@
 SPECIFICATION GSpec
 CONSTANTS
   NMods = 3
-  Choices = {1, 2, 4, 5, 6}
+  Choices = {1, 2, 5, 6, 10}
   Splits = {0, 2}
   Scen = {"plain1", "share1", "twice1", "plain2", "twice2", "plain3", "plain4"}
 INVARIANT Emit1
